@@ -51,7 +51,10 @@ namespace details {
             }
             else
             {
-                return read_16bit_uuid( bytes_ ) == attr.uuid;
+                // the value that marks an attribute with a 128 bit uuid is not a uuid that can be asked for
+                const std::uint16_t uuid = read_16bit_uuid( bytes_ );
+
+                return uuid != bits( gatt_uuids::internal_128bit_uuid ) && uuid == attr.uuid;
             }
         }
 
